@@ -11,11 +11,16 @@ vars == <<chainVars, followerVars>>
 
 Init == ChainInit /\ FollowerInit
 
+CONSTANT MultiStep \* TRUE: a reorganisation is a sequence of single disconnects / connects (ReorgBegin, ReorgStep)
+                   \* that handler steps may interleave with; FALSE: it is the atomic SwitchTo
+
 ChainStep ==
     \/ /\ StrictOrder => ntfT = <<>>
        /\ \/ \E txs \in Contents(CC(best)) : Extend(txs)
           \/ \E p \in (Blocks \cup {0}) : \E txs \in Contents(CC(Path(p))) : MineSide(p, txs)
-          \/ \E l \in Blocks : SwitchTo(l)
+          \/ ~MultiStep /\ \E l \in Blocks : SwitchTo(l)
+          \/ MultiStep /\ \E l \in Blocks : ReorgBegin(l)
+    \/ MultiStep /\ ReorgStep
     \/ /\ StrictOrder => ntfB = <<>>
        /\ \E t \in TxIds : Announce(t)
 
